@@ -65,6 +65,11 @@ def configs(tier, seed):
     for n in (2, 3):
         for order in itertools.permutations(range(n)):
             out.append({"name": f"oscillation-{n}-order{''.join(map(str, order))}", "kind": "osc", "n": n, "order": list(order)})
+    # oscillations under a Gaussian IRF with rates of both signs, either one declared first (C07's closed form per label)
+    for signs in (["neg", "pos"], ["pos", "neg"]):
+        out.append({"name": f"oscillation-irf-{'-'.join(signs)}", "kind": "osc_irf",
+                    "c07": {"name": f"oscillation-irf-full-mixed-{'-'.join(signs)}", "kind": "osc_irf_full", "signs": signs, "ngauss": 1,
+                            "shifted": False, "nt": 1}})
     for order in itertools.permutations(range(3)):
         out.append({"name": f"spectral-shapes-order{''.join(map(str, order))}", "kind": "shapes", "order": list(order)})
     out.append({"name": "baseline-and-artifact-labels", "kind": "fixed"})
@@ -105,6 +110,13 @@ def run_config(batch, rec):
             return c04._run_one(cfg["c04"], rec)  # labelled concentration columns against the rate equations, per declaration order
         if cfg["kind"] == "datasets":
             return _run_datasets(cfg, rec)
+        if cfg["kind"] == "osc_irf":
+            n0 = len(rec.candidates)
+            c07._run_osc_irf_full(cfg["c07"], rec)
+            for i in range(n0, len(rec.candidates)):  # route replays of this item through this harness
+                c = rec.candidates[i]
+                rec.candidates[i] = (c[0], c[1], dict(c[2], item=cfg))
+            return None
         return {"combine": _run_combine, "osc": _run_osc, "shapes": _run_shapes, "fixed": _run_fixed}[cfg["kind"]](cfg, rec)
 
     rec.each(batch["items"], one)
@@ -338,6 +350,8 @@ def _replay_item(cfg):
         return False, "ok"
     if cfg["kind"] == "datasets":
         return c02.replay({"cfg": cfg["pipeline"], "env": {}})
+    if cfg["kind"] == "osc_irf":
+        return c07.replay({"cfg": cfg["c07"], "env": {}})
     with warnings.catch_warnings():
         warnings.simplefilter("ignore")
         if cfg["kind"] == "combine":
